@@ -186,5 +186,6 @@ package stats
 // call builds the counters; a later call leaves the live ones alone.
 //@ func Init
 //@   property C17
+//@   modifies *!config!archiver
 //@   ensures [idempotent] old(oncedone(doOnce)) ==> globalStats == old(globalStats) // C17: the reported totals equal the number of events that happened (a repeated Init - every Start function calls it - does not replace the live counters, which would lose totals and leave worker gauges wrong)
 //@   ensures [built-once] !old(oncedone(doOnce)) ==> globalStats != nil && oncedone(doOnce)
